@@ -292,6 +292,10 @@ def _orientation(prog, res):
       if isinstance(st, ast.Call) and prog.resolve_call(fn, st) is ap and \
           len(st.args) > 1 and dotted(st.args[1]) == kind:
         used = True
+      # the re-oriented list written in place of the rebinding
+      if isinstance(st, ast.Call) and prog.resolve_call(fn, st) is ap and \
+          len(st.args) > 1 and _pairs_swapped(st.args[1]) == kind:
+        swapped = used = True
     res.check(swapped and used, 'A4', 'linear_lib.project|%s' % kind,
               fn.loc(),
               '(dominant, weak) is re-oriented to (weak, dominant): '
@@ -431,8 +435,9 @@ def _scaling(prog, res):
       elif isinstance(st.op, ast.Div):
         div = st
     if isinstance(st, ast.Assign) and isinstance(st.value, ast.Call) and \
-        len(st.value.args) > 1 and dotted(st.value.args[1]) == \
-        'range_dominances':
+        len(st.value.args) > 1 and (
+            dotted(st.value.args[1]) == 'range_dominances' or
+            _pairs_swapped(st.value.args[1]) == 'range_dominances'):
       projn = st
   good = (mul is not None and div is not None and projn is not None
           and mul.lineno < projn.lineno < div.lineno)
